@@ -154,23 +154,28 @@ func pdataUses(p *core.Prog, reach map[*ssa.Function]bool) map[string]dmUse {
 type dmSignal struct {
 	prop, name, pdataPkg, root string
 	enc, dec                   string
-	floor                      int
+	floor, floor3              int
 }
 
 var dmSignals = []dmSignal{
-	{"C01", "traces", "ptrace", "Traces", "BatchArrowRecordsFromTraces", "TracesFrom", 35},
-	{"C02", "logs", "plog", "Logs", "BatchArrowRecordsFromLogs", "LogsFrom", 20},
-	{"C03", "metrics", "pmetric", "Metrics", "BatchArrowRecordsFromMetrics", "MetricsFrom", 70},
+	{"C01", "traces", "ptrace", "Traces", "BatchArrowRecordsFromTraces", "TracesFrom", 35, 20},
+	{"C02", "logs", "plog", "Logs", "BatchArrowRecordsFromLogs", "LogsFrom", 20, 12},
+	{"C03", "metrics", "pmetric", "Metrics", "BatchArrowRecordsFromMetrics", "MetricsFrom", 70, 45},
+}
+
+func dmRoot(p *core.Prog, sig dmSignal) *types.Named {
+	if pkg := p.Pkg(core.PdataPath + "/" + sig.pdataPkg); pkg != nil && pkg.Types != nil {
+		if o := pkg.Types.Scope().Lookup(sig.root); o != nil {
+			n, _ := o.Type().(*types.Named)
+			return n
+		}
+	}
+	return nil
 }
 
 func rt_1(sig dmSignal) func(c *core.Ctx, p *core.Prog) {
 	return func(c *core.Ctx, p *core.Prog) {
-		var rootT *types.Named
-		if pkg := p.Pkg(core.PdataPath + "/" + sig.pdataPkg); pkg != nil && pkg.Types != nil {
-			if o := pkg.Types.Scope().Lookup(sig.root); o != nil {
-				rootT, _ = o.Type().(*types.Named)
-			}
-		}
+		rootT := dmRoot(p, sig)
 		encRoots := methodsOf(p, pkgArrowRecord, "Producer", sig.enc)
 		decRoots := methodsOf(p, pkgArrowRecord, "Consumer", sig.dec)
 		if rootT == nil || len(encRoots) == 0 || len(decRoots) == 0 {
